@@ -149,7 +149,10 @@ def _set_with_op(container: Any, key: Any, op: str, value: Any) -> Any:
     elif op == '-=':
         container[key] -= value
     elif op == '*=':
-        container[key] *= value
+        if not isinstance(container[key], (Decimal_, int, float)) or not isinstance(value, (Decimal_, int, float)):
+            raise ParserError(f'Can\'t multiply non-numbers')
+
+        container[key] = Decimal(container[key]) * Decimal(value)
     elif op == '/=':
         container[key] /= value
     else:
